@@ -63,6 +63,20 @@ CLAIMED = {
         design_ref="DESIGN.md section 5 C12",
         note="Trusted: TLC, fork-per-behaviour isolation, the battery's sensitivity (its first item is a production-parser call that "
              "exposes any token left over by an earlier call)."),
+    "C15": dict(
+        technique="TLA+ contract (NamespacesContract) + intended-semantics generator machine (Namespaces.tla, invariants checked by "
+                  "TLC); TLC-generated tour and simulated walks replayed on CSSStyleSheet namespaces / @namespace rules / namespaced "
+                  "selectors incl. @media-nested, detached and re-attached rules; TLC trace monitor",
+        text="Bounded exhaustive over namespace edit histories (3 prefixes incl. default, 2 URIs, 7 selector forms incl. undeclared "
+             "prefix; add/insert/delete @namespace, mapping set/delete, prefix assignment, selector rewrite, detach/attach). After "
+             "every step TLC checks: mapping = effective rules, used URIs declared, unprefixed type selectors follow the default, "
+             "serialisation reparses to the same mapping and re-resolves every explicit item to the same (URI, local) pair, "
+             "denotation of every untouched selector item is stable, detached rules keep their text, undeclared prefix rejected, "
+             "rejected => unchanged.",
+        design_ref="DESIGN.md section 5 C15",
+        note="Trusted: TLC, adapter projection. States where one prefix is bound to two URIs are only partly judged (property silent). "
+             "Four known findings (unprefixed selectors do not follow the default namespace; attribute in default namespace; "
+             "rule object with undeclared URI accepted)."),
 }
 PENDING = "check not built yet in this round (see DESIGN.md section 10 build order); no claim is made"
 NOT_APPLICABLE = {}
